@@ -1,6 +1,6 @@
 #!/bin/sh
 # ./seedtest.sh <patch.diff> <prop>...   -- apply a seeded change to /repo, run checks, undo
 patch=$1; shift
-git -C /repo apply "$patch" || { echo "patch does not apply"; exit 3; }
+git -C /repo apply "$(realpath "$patch")" || { echo "patch does not apply"; exit 3; }
 for p in "$@"; do ./check $p 2>&1 | grep -E "^(OK|VIOLATION|KNOWN|NO-VERDICT)|FAILED OBLIGATION" | head -5; echo "  -> $p rc=$?"; done
 git -C /repo checkout -- .
